@@ -161,11 +161,14 @@ Recipe(t, r, c, ps) ==
                     LineP(200 + 10 * pairs[i][1] + pairs[i][2], pairs[i][1], pairs[i][2], lk)]
         extra1 == IF p = 1 THEN <<ReflP(19, 1, "P")>> ELSE <<>>
         alld == IF p >= 2 THEN <<DiagP(400, p, IF ps = 0 THEN "S" ELSE "P")>> ELSE <<>>
+        sub3 == IF p >= 4
+                THEN <<Phys(350, <<1, 3, 4>>, [ab \in {1, 3, 4} \X {1, 3, 4} |-> lk])>>
+                ELSE <<>>
         fulls == IF p >= 2
                  THEN [k \in 1..(IF Is16(t) THEN K16(t, r, c) ELSE IF p >= 3 THEN 1 ELSE 0) |->
                          FullP(300 + k, p, lk)]
                  ELSE <<>>
-    IN singles \o doubles \o extra1 \o thrus \o lines \o alld \o fulls
+    IN singles \o doubles \o extra1 \o thrus \o lines \o alld \o sub3 \o fulls
 
 (* ---- refused standards ---- *)
 RefusedCandidates(t, r, c) ==
